@@ -816,8 +816,9 @@ def run(ctx: Ctx) -> None:
             mc("LBSpec N=2, all keyword sets", "b2", 4, n=2, rich="FALSE", maxev=2, allkw="TRUE", maxh=1)
             mc("LBSpec N=2, valid cuts, 2 handles per construct_dag block", "b2s", 3, n=2, rich="FALSE", maxev=2,
                allkw="FALSE", maxh=2)
-            mc("LBSpec N=2, valid cuts, user cache (first / all functions flagged)", "b2c", 4, modes='{"call"}', ucache="TRUE",
-               n=2, rich="FALSE", maxev=2, allkw="FALSE", maxh=1)
+            # (the longest run: split in two by DescHash so that it does not decide the wall time)
+            mc("LBSpec N=2, valid cuts, user cache (first / all functions flagged)", "b2c", 3, nshards=2, modes='{"call"}',
+               ucache="TRUE", n=2, rich="FALSE", maxev=2, allkw="FALSE", maxh=1)
             # fault plans (FaultChoice: each function raising once / always, all raising once): evaluate() calls that raise
             # followed by further ones; quick: one part in eight of the description universe (DescHash = 5 mod 8: a function of
             # two parameters followed by one of one parameter, 36 descriptions x 6 plans), pipeline() convention; thorough: all
